@@ -212,6 +212,27 @@ def rule_take_once(ctx, cfg, F, D):
     R.count("conversion_sites[%s]" % cfg, n)
 
 
+
+def rule_decode_reader(ctx, cfg, F):
+    R = ctx.rule("DECODE-READER", "received bytes are decoded with bincode's slice reader (bincode::deserialize / Options::deserialize on &[u8]), which checks a length prefix against the bytes "
+                 "that remain before allocating; the stream readers (deserialize_from and friends) allocate the announced length first, so one hostile length aborts the receiving process")
+    n = 0
+    for f in sorted(F.fns.values(), key=lambda x: x.path):
+        if f.file.endswith("test.rs"):
+            continue
+        for b, t in f.calls():
+            nm = strip_generics(callee_name(t))
+            decl = strip_generics(t.get("callee") or "")
+            if nm.startswith("bincode::") and ("deserialize" in nm):
+                n += 1
+                if "deserialize_from" in nm or "deserialize_from" in decl or "deserialize_seed" in nm and "from" in nm:
+                    R.violate("%s:stream-reader" % strip_generics(f.path), "%s decodes received bytes with %s: the stream reader allocates an announced length before reading it" % (f.path, nm),
+                              f.path, f.loc(b), config=cfg)
+                else:
+                    R.ok("%s decodes with the slice reader (%s)" % (f.path, nm.split("::")[-1]), f.loc(b), cfg)
+    R.count("decode_sites[%s]" % cfg, n)
+
+
 def rule_result_unwrap(ctx, cfg, F):
     R = ctx.rule("DECODE-RESULT-UNWRAP", "library code never unwraps the result of decoding a received message (OpaqueIpcMessage::to)")
     n = 0
